@@ -43,6 +43,15 @@ def _PART(e, st, words, text, offs):
                                   patterns=[z3.MultiPattern(_off(offs, i), _off(offs, j))])))
 
 
+@spec("NONL")
+def _NONL(e, st, words):
+    """Plain-string words contain no newline (every newline is a ParagraphToken of the shipped extractors)."""
+    i = z3.Int(fresh_name("ni"))
+    w = z3.Select(words.v.arrs[0], i)
+    return SV(BOOL, z3.ForAll([i], Implies(And(i >= 0, i < words.v.len, class_of(w) == 0), Not(z3.Contains(strval(w), z3.StringVal("\n")))),
+                              patterns=[z3.Select(words.v.arrs[0], i)]))
+
+
 @spec("m_text")
 def _m_text(e, st, m):
     return SV(STR, bm.m_text(m.v))
@@ -155,6 +164,7 @@ contract("helpers.match_on_tokens",
         # backward: the window is a suffix of the text before the end of word start_index, the match ends at its end
         "bwd_window": "implies(not forward and result is not None, suffix_of(m_text(result), ghost.text[0:ghost.offs[start_index + 1]]))",
         "bwd_anchor": "implies(not forward and result is not None, m_end(result) == len(m_text(result)) or m_end(result) == len(m_text(result)) - 1)",
+        "bwd_no_newline": "implies(not forward and strings_only and NONL(words) and result is not None, not ('\\n' in m_text(result)) and m_end(result) == len(m_text(result)))",
         "regex": "implies(result is not None, m_regex(result) == old(regex))",
         "bounded": "implies(result is not None, len(m_text(result)) <= 300 + len(prefix))",
     })
@@ -165,6 +175,7 @@ loop("helpers.match_on_tokens", 1,
         "bwd": "implies(not forward, text == ghost.text[ghost.offs[start_index + 1 - k]:ghost.offs[start_index + 1]])",
         "txt": "text is not None",
         "bounded": "k == 0 or len(text) < 300",
+        "no_newline": "implies(not forward and strings_only and NONL(words), not ('\\n' in text))",
     })
 # intermediate lemma (slice concatenation) right after the append / prepend
 ghost_code("helpers.match_on_tokens", "after:AugAssign#1",
@@ -422,3 +433,45 @@ loop("helpers.add_defendant", 1,
         "start_none": "start_index is None",
         "plaintiff_none": "citation.metadata.plaintiff is None",
     })
+
+# ------------------------------------------------------------------------------------------------ add_pre_citation
+contract("helpers.add_pre_citation",
+    types={"citation": "obj<FullCaseCitation>", "words": WORDS_T}, returns="none", noraise=True, prop="C02", ghost=GHOST_DOC, merge_ifs=False,
+    requires={"part": "PART(words, ghost.text, ghost.offs)", "cit": CIT_AT, "lemmas": "regex_lemmas()",
+              # every newline of the text is a ParagraphToken (shipped extractors), so plain words contain none
+              "no_newline_words": "NONL(words)",
+              "fss_ok": f"{FSS} is None or (0 <= {FSS} and {FSS} <= {S0})",
+              "fresh": "citation.metadata.pin_cite_span_start is None and citation.metadata.antecedent_guess is None"},
+    modifies=["citation.full_span_start", "citation.metadata.pin_cite", "citation.metadata.pin_cite_span_start", "citation.metadata.antecedent_guess"],
+    ensures={
+        "full_span_start_bounds": f"{FSS} is None or (0 <= {FSS} and {FSS} <= {S0})",
+        "pin_span_start_bounds": f"citation.metadata.pin_cite_span_start is None or (0 <= citation.metadata.pin_cite_span_start and citation.metadata.pin_cite_span_start <= {S0} "
+                                 f"and {FSS} is not None and {FSS} <= citation.metadata.pin_cite_span_start)",
+        "antecedent_inside": f"citation.metadata.antecedent_guess is None or ({FSS} is not None and in_window(citation.metadata.antecedent_guess, ghost.text, {FSS}, {S0}))",
+        "pre_pin_inside": f"implies(citation.metadata.pin_cite_span_start is not None and citation.metadata.pin_cite is not None, "
+                          f"in_window(citation.metadata.pin_cite, ghost.text, citation.metadata.pin_cite_span_start, {S0}))",
+    },
+    props={"antecedent_inside": "C17", "pre_pin_inside": "C02"})
+
+# ------------------------------------------------------------------------------------------------ law / journal metadata
+LAW_CIT_AT = CIT_AT
+for _fn, _cls, _fields in (("add_law_metadata", "FullLawCitation", ["pin_cite", "publisher", "day", "month", "parenthetical", "year"]),
+                           ("add_journal_metadata", "FullJournalCitation", ["pin_cite", "parenthetical", "year"])):
+    _ens = {
+        "full_span_end_bounds": f"citation.full_span_end is None or ({E0} <= citation.full_span_end and citation.full_span_end <= len(ghost.text))",
+        "year_sound": YEAR_INV,
+    }
+    _props = {"year_sound": "C18"}
+    for _f in _fields:
+        _ens[f"{_f}_inside"] = f"citation.metadata.{_f} is None or (citation.full_span_end is not None and in_window(citation.metadata.{_f}, ghost.text, {E0}, citation.full_span_end))"
+        _props[f"{_f}_inside"] = "C17"
+    contract(f"helpers.{_fn}",
+        types={"citation": f"obj<{_cls}>", "words": WORDS_T}, returns="none", noraise=True, prop="C02", ghost=GHOST_DOC, merge_ifs=True,
+        requires={"part": "PART(words, ghost.text, ghost.offs)", "cit": LAW_CIT_AT, "lemmas": "regex_lemmas()",
+                  "fresh_year": "citation.year is None", "fresh_end": "citation.full_span_end is None",
+                  "fresh_metadata": " and ".join(f"citation.metadata.{_f} is None" for _f in _fields)},
+        modifies=["citation.full_span_end", "citation.year"] + [f"citation.metadata.{_f}" for _f in _fields],
+        ensures=_ens, props=_props)
+lemma("sub_no", ["x:str", "s:str", "a:int", "b:int"], "implies(not (x in s) and 0 <= a and a <= b and b <= len(s), not (x in s[a:b]))")
+ghost_code("helpers.match_on_tokens", "after:Assign#7",
+    "use_lemma('sub_no', '\\n', text, len(text) - 300, len(text))")
